@@ -37,7 +37,13 @@ Inductive case :=
      0 = x read again, 1 = translate(x), 2 = get_reverse_complement(x) or r read again, 3 = translate(r),
      4 = get_reverse_complement(r), 5 / 6 = get_reverse_complement / translate of ANOTHER object b holding the same rows in
      reverse order (same encoding, same total size; results of earlier calls are kept across these).  The property: operands are unchanged, every result is the result on a fresh copy. *)
-| CSeq (rows : list (list Z)) (steps : list (Z * obs)).
+| CSeq (rows : list (list Z)) (steps : list (Z * obs))
+  (* round 6 — the indexed-FASTA backend on a wrapped multi-record FASTA: recs = (name, sequence, line width) per record,
+     nl_end = the file ends in a line break, fsize = size of the file on disk, fai = the .fai index on disk (given or
+     written by the library), calls = the calls made ONE AFTER THE OTHER on the same GenomicSequence object:
+     (intervals in call order, stranded?, observation).  The property: every row of every call is the forward
+     subsequence ('+' / unstranded) or its reverse complement ('-'), whatever was fetched before it. *)
+| CFa (recs : list fa_rec) (nl_end : bool) (fsize : Z) (fai : list fa_idx) (calls : list (list iv4 * bool * obs)).
 
 Definition strand_known (iv : Z * Z * Z) : bool := (iv_strand iv =? 43) || (iv_strand iv =? 45).
 (* rows compared only where the property speaks (strand '+' or '-') *)
@@ -73,6 +79,7 @@ Definition bio_ok (c : case) : bool :=
   | CTr rows _ bio => negb (tr_wellformed rows) || zll_eqb bio (map spec_translate rows)
   | CGen ref txs _ bio => zll_eqb bio (map (spec_transcript ref) txs)
   | CSeq _ _ => true
+  | CFa _ _ _ _ _ => true
   end.
 (* the property itself, on what the implementation returned *)
 Definition prop_ok (c : case) : bool :=
@@ -90,6 +97,9 @@ Definition prop_ok (c : case) : bool :=
       else all_true (map (fun o : obs => negb (fst o =? 0)) outs)      (* N / bad length: must raise *)
   | CGen ref txs o _ => obs_is o (map (spec_transcript (map (canon 2) ref)) txs)
   | CSeq rows steps => all_true (map (fun p : Z * obs => obs_is (snd p) (seq_spec rows (fst p))) steps)
+  | CFa recs _ _ _ calls =>
+      all_true (map (fun cl : list iv4 * bool * obs =>
+                       obs_is (snd cl) (map (fa_want recs (snd (fst cl))) (fst (fst cl)))) calls)
   end.
 Definition spec_ok (c : case) : bool := bio_ok c && prop_ok c.
 
@@ -104,4 +114,9 @@ Definition model_ok (c : case) : bool :=
   | CTr rows outs _ => all_true (map (fun o => obs_eqb o (model_translate rows)) outs)
   | CGen ref txs o _ => obs_eqb o (model_transcripts complements where_rows ref txs)
   | CSeq rows steps => all_true (map (fun p : Z * obs => obs_eqb (snd p) (seq_model rows (fst p))) steps)
+  | CFa recs nl_end fsize fai calls =>
+      let file := fa_file recs nl_end in
+      (len file =? fsize)
+      && all_true (map (fun cl : list iv4 * bool * obs =>
+                          obs_eqb (snd cl) (model_fa_call complements where_rows file fai (snd (fst cl)) (fst (fst cl)))) calls)
   end.
